@@ -71,6 +71,8 @@ Notation "' pat <~ m ;;; k" := (hbinde m (fun x => match x with pat => k end))
   (at level 61, pat pattern, m at next level, right associativity) : pyh_scope.
 Notation "x <~h m ;;; k" := (hbind m (fun x => k))
   (at level 61, m at next level, right associativity) : pyh_scope.
+Notation "' pat <~h m ;;; k" := (hbind m (fun x => match x with pat => k end))
+  (at level 61, pat pattern, m at next level, right associativity) : pyh_scope.
 Notation "x <~~ b ;;; k" := (hbindo b (fun x => k))
   (at level 61, b at next level, right associativity) : pyh_scope.
 Notation "' pat <~~ b ;;; k" := (hbindo b (fun x => match x with pat => k end))
@@ -216,3 +218,74 @@ Definition hy_join (sep it : pv) : hm pv :=
   | _ => hraise TypeError
   end.
 Definition hy_reversed (x : pv) : hm pv := hbind (hy_items x) (fun l => hret (VTuple (rev l))).
+
+(* ---------- enumerate, unpacking, item assignment, deepcopy, str of a tuple (get_html_map) ---------- *)
+Definition hy_enumerate (x : pv) : hm pv :=
+  hbind (hy_items x) (fun l => hret (VTuple (enum_go 0 l))).
+Definition hy_unpack2 (v : pv) : hm (pv * pv) :=
+  hbind (hy_items v) (fun l => match l with [a; b] => hret (a, b) | _ => hraise ValueError end).
+Definition hy_unpack1 (v : pv) : hm pv :=
+  hbind (hy_items v) (fun l => match l with [a] => hret a | _ => hraise ValueError end).
+Definition hy_unpack3 (v : pv) : hm (pv * pv * pv) :=
+  hbind (hy_items v) (fun l => match l with [a; b; c] => hret (a, b, c) | _ => hraise ValueError end).
+Definition hy_unpack4v (v : pv) : hm (pv * pv * pv * pv) :=
+  hbind (hy_items v) hy_unpack4.
+(* x[i] = v on a list *)
+Definition hy_setitem (x i v : pv) : hm unit := fun h =>
+  match x with
+  | VRef a =>
+      match h_get a h with
+      | Some (HList l) =>
+          match int_like i with
+          | Some z => match norm_index (length l) z with
+                      | Some n => match list_set l n v with
+                                  | Some l' => HOk tt (h_set a (HList l') h)
+                                  | None => HErr IndexError h
+                                  end
+                      | None => HErr IndexError h
+                      end
+          | None => HErr TypeError h
+          end
+      | _ => HErr TypeError h
+      end
+  | _ => HErr TypeError h
+  end.
+(* copy.deepcopy of a nested list: every list level is allocated anew, immutable values are shared;
+   sharing INSIDE the argument (one list object referenced twice) is not reproduced (the values
+   this is applied to are trees) *)
+Fixpoint hy_deepcopy (fuel : nat) (v : pv) {struct fuel} : hm pv :=
+  match fuel with
+  | O => hraise ModelError
+  | S f =>
+      match v with
+      | VRef a => fun h =>
+          match h_get a h with
+          | Some (HList l) =>
+              (hbind ((fix go (l : list pv) : hm (list pv) :=
+                         match l with
+                         | [] => hret []
+                         | x :: r => hbind (hy_deepcopy f x) (fun x' => hbind (go r) (fun r' => hret (x' :: r')))
+                         end) l)
+                     hy_new_list) h
+          | _ => HErr TypeError h
+          end
+      | _ => hret v
+      end
+  end.
+(* str(x): a str, an int, or a tuple of ints as Python prints it: "(0, 1, 2, 3)", "(0,)" *)
+Fixpoint ints_of (l : list pv) : option (list Z) :=
+  match l with
+  | [] => Some []
+  | VInt z :: r => match ints_of r with Some zs => Some (z :: zs) | None => None end
+  | _ :: _ => None
+  end.
+Definition hy_str (v : pv) : hm pv :=
+  match v with
+  | VTuple l =>
+      match ints_of l with
+      | Some [z] => hret (VStr (40 :: str_of_Z z ++ [44; 41])%N)
+      | Some zs => hret (VStr (40 :: join [44; 32]%N (map str_of_Z zs) ++ [41])%N)
+      | None => hraise TypeError
+      end
+  | _ => hlift (py_str v)
+  end.
